@@ -401,7 +401,7 @@ func work(ctx *runner.Ctx) {
 	var cases []cs
 	seed := uint64(ctx.Seed)
 	// IKNP layer: every n up to the bound, both forms.
-	maxN := 1100
+	maxN := 2600
 	if ctx.Quick() {
 		maxN = 600
 	}
